@@ -69,13 +69,20 @@ def fmt_exp(v):
     return '%s%se%d' % ('-' if sign else '', digs, exp)
 
 
+LIST_SEPS = [' ', ', ', ',', '\n', ' , ', '  ']
+
+
 def tf_text(tfs, sep_choice=0):
+    """sep_choice % 3: argument separator; (sep_choice % 6) >= 3: every other transform spelled with exponents;
+    sep_choice // 6: separator between the transforms of the list (comma-wsp, SVG 1.1 section 7.6) and, for odd values,
+    white space before the opening parenthesis"""
     parts = []
     for k, tf in enumerate(tfs):
         sep = [',', ' ', ', '][sep_choice % 3] if len(tf) > 2 else ''
-        f = fmt_exp if (sep_choice >= 3 and (k + sep_choice) % 2 == 0) else fmt
-        parts.append('%s(%s)' % (tf[0], sep.join(f(v) for v in tf[1:])))
-    return ' '.join(parts)
+        f = fmt_exp if ((sep_choice % 6) >= 3 and (k + sep_choice) % 2 == 0) else fmt
+        gap = ' ' if (sep_choice // 6) % 2 == 1 and k % 2 == 1 else ''
+        parts.append('%s%s(%s)' % (tf[0], gap, sep.join(f(v) for v in tf[1:])))
+    return LIST_SEPS[(sep_choice // 6) % len(LIST_SEPS)].join(parts)
 
 
 def apply(M, z):
